@@ -3,6 +3,7 @@ import PyYetiVerif.Lemmas.Op4File
 import PyYetiVerif.Lemmas.Op4Bytes
 import PyYetiVerif.Lemmas.Op4AsciiPuts
 import PyYetiVerif.Lemmas.Op4AsciiHalf
+import PyYetiVerif.Lemmas.Op4Coo
 /-!
 # C04 — OUTPUT4 write followed by read is the identity
 
@@ -432,5 +433,244 @@ example : fields 3 3 "abcdefgh".toList = ["abc".toList, "def".toList, "gh".toLis
     pyFloat? " -2.50E-120".toList = some { neg := true, man := 250, exp := -122 } ∧
     pyInt? "   -12 \n".toList = some (-12) := by
   decide +kernel
+
+/-! ## The true domain, the sparse views, sparse inputs
+
+`Model/Op4Sparse.lean` adds: `writeFileWords` (the binary writer with every `struct.pack('i', …)` checked),
+the writers' scipy.sparse input branches (`encMatWordsSp`, `encMatAsciiSp`), and `cooToDense`
+(`coo_matrix(...).toarray()`). -/
+
+/-- **The writer's domain.**  `writeFileWords` succeeds only if every dimension is at most `2^31 - 1`
+(`ValueError` above), `cols + 1`, `form` and every column record length `recLen` fit a signed 32-bit integer
+(`struct.error` otherwise: Python / int64 arithmetic on the ndarray path), and the nonbigmat strings fit
+(`file_writes_iff`); and then it writes what `encFileWords` writes. -/
+theorem write_domain (e : Endian) (ms : List (Layout × Mat)) (ws : List Nat) (h : writeFileWords e ms = .ok ws) :
+    encFileWords e ms = some ws ∧ ∀ p ∈ ms, p.2.rows < 2 ^ 31 ∧ p.2.cols.length + 1 < 2 ^ 31 ∧ p.2.form < 2 ^ 31 ∧
+      ∀ col ∈ p.2.cols, recLen p.1 p.2.cplx col < 2 ^ 31 :=
+  writeFileWords_ok e ms ws h
+
+/-- the record length is what the column record announces: `12 + 8·elems` for a dense record (`elems` = first
+to last non-zero row, times 2 for complex), `4·(3 + nwords)` for the two sparse layouts -/
+theorem recLen_spec (cplx : Bool) (col : List Entry) (s : Nat) (tl : List Nat) (h : nzIdx cplx col = s :: tl) :
+    recLen .dense cplx col = 3 * 4 + ((s :: tl).getLast (by simp) - s + 1) * mult cplx * 8 ∧
+      recLen .bigmat cplx col = (3 + nwordsBig cplx (strings cplx col)) * 4 ∧
+      recLen .nonbigmat cplx col = (3 + nwordsNonbig cplx (strings cplx col)) * 4 := by
+  refine ⟨?_, (recLen_sparse .bigmat cplx col s tl h).1, (recLen_sparse .bigmat cplx col s tl h).2⟩
+  simp only [recLen]
+  split
+  · next h' => rw [h] at h'; cases h'
+  · next s' tl' h' => rw [h] at h'; cases h'; rfl
+
+/-- **file_roundtrip_binary on the true domain** (replaces `rows < 2^28` of `file_roundtrip_binary` by what the
+writer really needs): whenever the checked writer succeeds on matrices whose columns have `rows` entries and
+whose name bytes are bytes, the reader decodes the words to one `Dec` per matrix, in order, with `DecOf` (name
+field, shape, form, type, puts that rebuild `decCol`), and moreover the column reader `_get_funcs` chose
+(`layOf`), what `sparse=None` resolves to (`autoOf`) and the puts themselves are the stated ones. -/
+theorem file_roundtrip_binary_domain (e : Endian) (ms : List (Layout × Mat)) (ws : List Nat)
+    (hcols : ∀ p ∈ ms, (∀ col ∈ p.2.cols, col.length = p.2.rows) ∧ (∀ b ∈ p.2.name, b < 256) ∧
+      (p.1 = .nonbigmat → p.2.rows < rows4bigmat))
+    (hwr : writeFileWords e ms = .ok ws) :
+    ∃ ds, rdFile e (ws.length + 1) ws = some ds ∧ List.Forall₂ (DecOfX e) ms ds := by
+  obtain ⟨henc, hdom⟩ := writeFileWords_ok e ms ws hwr
+  refine rdFile_encX e ms ws (ws.length + 1) henc (by have := encFileWords_length e ms ws henc; omega) ?_
+  intro p hp
+  obtain ⟨h1, h2, h3, h4⟩ := hdom p hp
+  exact ⟨⟨(hcols p hp).1, h1, h2, h3, (hcols p hp).2.1, h4⟩, (hcols p hp).2.2⟩
+
+/-- the same at the level of bytes: `decodeBytes` of the bytes written on the true domain is `canonFile` -/
+theorem file_roundtrip_bytes_domain (e : Endian) (ms : List (Layout × Mat)) (bytes : List Nat) (hne : ms ≠ [])
+    (hw : ∀ p ∈ ms, p.2.WfDB p.1 ∧ (p.1 = .nonbigmat → p.2.rows < rows4bigmat))
+    (henc : encFileBytes e ms = some bytes) :
+    decodeBytes bytes = some (canonFile ms) := by
+  unfold encFileBytes at henc
+  cases hws : encFileWords e ms with
+  | none => rw [hws] at henc; cases henc
+  | some ws =>
+    rw [hws] at henc
+    simp only [Option.map_some, Option.some.injEq] at henc
+    subst henc
+    have hlt := encFileWords_lt32' e ms ws (fun p hp => (hw p hp).1) hws
+    obtain ⟨ds, hds, hdecs⟩ := rdFile_encX e ms ws (ws.length + 1) hws
+      (by have := encFileWords_length e ms ws hws; omega) (fun p hp => ⟨(hw p hp).1.wf, (hw p hp).2⟩)
+    obtain ⟨ws', hws'⟩ : ∃ ws', ws = 24 :: ws' := by
+      cases ms with
+      | nil => exact absurd rfl hne
+      | cons p t =>
+        obtain ⟨lay, m⟩ := p
+        simp only [encFileWords] at hws
+        cases ha : encMatWords e lay m with
+        | none => simp [ha] at hws
+        | some a =>
+          cases hb : encFileWords e t with
+          | none => simp [ha, hb] at hws
+          | some b =>
+            simp only [ha, hb, Option.bind_eq_bind, Option.bind_some, Option.some.injEq] at hws
+            rw [← hws, encMatWords_eq e lay m a ha]
+            simp only [headerWords, hdrReclen, List.cons_append, List.append_assoc]
+            exact ⟨_, rfl⟩
+    unfold decodeBytes
+    rw [hws', decodeFormat_enc e ws', ← hws']
+    simp only [wordsOfBytes_bytesOfWords e ws hlt, hds]
+    exact toRMats_decs ms ds 0 (decsOf_of_X e ms ds hdecs) fun p hp => ⟨(hw p hp).1.name_ident, (hw p hp).1.name_len⟩
+
+/-- **sparse_auto_rule.**  What `sparse=None` returns for a matrix written in layout `lay`
+(`DecOfX … d → d.sparseAuto = autoOf lay m`, `file_roundtrip_binary_domain`): a sparse matrix iff the layout is
+bigmat and the matrix has rows, or nonbigmat and the matrix is not all zero; never for the dense layout.  In
+the remaining cases (`autoOf = false`) the written words **are** those of the dense layout, so no reader could
+tell: the rule is "dense iff the file is a dense-layout file". -/
+theorem sparse_auto_rule (e : Endian) (lay : Layout) (m : Mat) (hlen : ∀ col ∈ m.cols, col.length = m.rows) :
+    (autoOf lay m = true ↔ (lay = .bigmat ∧ 0 < m.rows) ∨
+        (lay = .nonbigmat ∧ ∃ col ∈ m.cols, nzIdx m.cplx col ≠ [])) ∧
+      (autoOf lay m = false → encMatWords e lay m = encMatWords e .dense m) := by
+  constructor
+  · cases lay
+    · simp [autoOf]
+    · simp [autoOf]
+    · simp [autoOf, List.any_eq_true]
+  · intro h
+    cases lay
+    · rfl
+    · have hr : m.rows = 0 := by simpa [autoOf] using h
+      have hz : ∀ col ∈ m.cols, nzIdx m.cplx col = [] := by
+        intro col hcol
+        have hl := hlen col hcol
+        rw [hr] at hl
+        have : col = [] := List.length_eq_zero_iff.1 hl
+        subst this
+        rfl
+      have h1 := (recsOf_eq_nil_iff e .bigmat m.cplx m.cols 0).2 hz
+      have h2 := (recsOf_eq_nil_iff e .dense m.cplx m.cols 0).2 hz
+      simp only [encMatWords, Option.some.injEq]
+      have e1 := encCols_recs e .bigmat m.cplx m.cols 0
+      have e2 := encCols_recs e .dense m.cplx m.cols 0
+      simp only [encCol] at e1 e2
+      rw [e1, e2, h1, h2]
+      simp [headerWords, hr]
+    · have hz := (autoOf_nonbigmat_false m).1 h
+      have h1 := (recsOf_eq_nil_iff e .nonbigmat m.cplx m.cols 0).2 hz
+      have h2 := (recsOf_eq_nil_iff e .dense m.cplx m.cols 0).2 hz
+      have hfit : m.cols.all (stringsFit m.cplx) = true := by
+        rw [List.all_eq_true]
+        intro col hcol
+        simp [stringsFit, strings_nil m.cplx col (hz col hcol)]
+      simp only [encMatWords, hfit, if_true, Option.some.injEq]
+      have e1 := encCols_recs e .nonbigmat m.cplx m.cols 0
+      have e2 := encCols_recs e .dense m.cplx m.cols 0
+      simp only [encCol] at e1 e2
+      rw [e1, e2, h1, h2]
+
+/-- which rows of a column the file stores: the sparse layouts exactly the non-zero rows (`±0.0` is never
+stored), the dense layout every row from the first to the last non-zero one — explicit zeros included -/
+theorem storedIdx_spec (lay : Layout) (cplx : Bool) (col : List Entry) (r : Nat) :
+    (lay ≠ .dense → (r ∈ storedIdx lay cplx col ↔ ∃ x, col[r]? = some x ∧ x.isZero cplx = false)) ∧
+      (∀ s tl, nzIdx cplx col = s :: tl →
+        (r ∈ storedIdx .dense cplx col ↔ s ≤ r ∧ r ≤ (s :: tl).getLast (by simp))) ∧
+      (nzIdx cplx col = [] → storedIdx lay cplx col = []) := by
+  refine ⟨?_, ?_, storedIdx_zero lay cplx col⟩
+  · intro h
+    cases lay
+    · exact absurd rfl h
+    · simp only [storedIdx]; exact mem_nzIdx cplx col r
+    · simp only [storedIdx]; exact mem_nzIdx cplx col r
+  · intro s tl h
+    have hsorted := (nzIdxFrom_sorted cplx col 0).1
+    have hs_le : s ≤ (s :: tl).getLast (by simp) := by
+      have := (sorted_bounds (nzIdx cplx col) (by rw [h]; simp) hsorted s (by rw [h]; exact List.mem_cons_self)).2
+      simpa [h] using this
+    simp only [storedIdx, h, List.mem_range'_1]
+    omega
+
+/-- **coo_view_correct.**  For a file written on the true domain, `op4.load(sparse=True)` returns per matrix
+the COO triplets `cooList`: column by column, for every stored row `r` (`storedIdx_spec`) the triplet
+`(r, c, value)`, rows ascending — the value being the written bit pattern (`cooEntry`: for complex the parts
+pass through `re + 1j*im`).  And `.toarray()` of it (`cooToDense`, for any addition with `0.0 + v = pz v`) is
+the dense read `decCol` with `-0.0 ↦ +0.0`. -/
+theorem coo_view_correct (e : Endian) (ms : List (Layout × Mat)) (ds : List Dec)
+    (h : List.Forall₂ (DecOfX e) ms ds) :
+    List.Forall₂ (fun (p : Layout × Mat) (d : Dec) =>
+      cooOfPuts p.2.cplx d.puts = cooList p.1 p.2.cplx 0 p.2.cols ∧
+      ((∀ col ∈ p.2.cols, col.length = p.2.rows) →
+        ∀ add : Entry → Entry → Entry, (∀ v, add (0, 0) v = pz v) →
+        cooToDense add p.2.rows p.2.cols.length (cooOfPuts p.2.cplx d.puts) =
+          p.2.cols.map fun col => (decCol p.1 p.2.cplx col).map fun y => pz (cooEntry p.2.cplx y))) ms ds := by
+  induction h with
+  | nil => exact List.Forall₂.nil
+  | @cons p d ps ds hd _ ih =>
+    refine List.Forall₂.cons ?_ ih
+    obtain ⟨_, _, _, hputs⟩ := hd
+    have h1 : cooOfPuts p.2.cplx d.puts = cooList p.1 p.2.cplx 0 p.2.cols := by
+      rw [hputs]; exact recsOf_coo e p.1 p.2.cplx p.2.cols 0
+    refine ⟨h1, ?_⟩
+    intro hlen add hadd
+    rw [h1]
+    exact cooToDense_cooList add hadd p.1 p.2.cplx p.2.rows p.2.cols hlen
+
+/-- **write_sparse_eq_write_dense.**  For every scipy.sparse input (stored triplets in any order, duplicates,
+explicit zeros; `add` is the addition that sums duplicates) the words the sparse branch of the binary writers
+produces are the words written for the ndarray `denseMat` — the found value where `sp.find` has one, `+0.0`
+elsewhere — in all three layouts; for the dense layout under the hypothesis that no record length leaves the
+int32 range (`sparse_input_reclen_wraps` shows it is needed).  The ASCII writers agree without any hypothesis. -/
+theorem write_sparse_eq_write_dense (add : Nat → Nat → Nat) (e : Endian) (d : Nat) (lay : Layout) (name : List Nat)
+    (form : Nat) (A : SpIn) :
+    ((lay = .dense → ∀ c, c < A.ncols → recLen .dense A.cplx (denseCol add A c) < 2 ^ 31) →
+        encMatWordsSp add e lay name form A = encMatWords e lay (denseMat add name form A)) ∧
+      encMatAsciiSp add d lay name form A = encMatAscii d lay (denseMat add name form A) :=
+  ⟨fun h => encMatWordsSp_eq add e lay name form A h, encMatAsciiSp_eq add d lay name form A⟩
+
+/-- what the ndarray of a sparse input holds: at `(r, c)` the sum of the values stored there (in storage order)
+unless there is none or the sum is `±0.0`, and then `+0.0` -/
+theorem denseMat_entry (add : Nat → Nat → Nat) (name : List Nat) (form : Nat) (A : SpIn) (r c : Nat)
+    (hr : r < A.rows) (hc : c < A.ncols) :
+    ((denseMat add name form A).cols[c]?.bind (·[r]?)) = some ((foundAt add A r c).getD (0, 0)) ∧
+      (foundAt add A r c = none ↔ ∀ v, sumVals add (valsAt A.trip r c) = some v → v.isZero A.cplx = true) := by
+  constructor
+  · simp [denseMat, denseCol, hr, hc]
+  · unfold foundAt
+    cases sumVals add (valsAt A.trip r c) with
+    | none => simp
+    | some v => by_cases hz : v.isZero A.cplx = true <;> simp [hz]
+
+/-- **F45 (formal side).**  For a sparse input written in the dense layout the record length is computed in
+int32 arithmetic (`spRecLen`): from `elems = 2^28 - 1 = 268435455` doubles on (a record of 2 GiB) the marker written is a
+negative number, where the ndarray path refuses to write (`write_domain`: `recLen < 2^31`). -/
+theorem sparse_input_reclen_wraps (elems : Nat) (h1 : 268435455 ≤ elems) (h2 : elems < 536870910) :
+    ofI32 (spRecLen elems) = (3 * 4 + elems * 8 : Int) - 4294967296 ∧ ofI32 (spRecLen elems) < 0 ∧
+      ¬ (3 * 4 + elems * 8 < 2147483648) := by
+  unfold spRecLen wrap32 ofI32
+  have e1 : elems * 8 % 4294967296 = elems * 8 := Nat.mod_eq_of_lt (by omega)
+  rw [e1]
+  have e2 : (3 * 4 + elems * 8) % 4294967296 = 3 * 4 + elems * 8 := Nat.mod_eq_of_lt (by omega)
+  rw [e2]
+  refine ⟨?_, ?_, by omega⟩
+  · rw [if_neg (by omega)]; push_cast; omega
+  · rw [if_neg (by omega)]; push_cast; omega
+
+/-- non-vacuity: a sparse input with a duplicate, an explicit zero and unsorted storage; its ndarray; the three
+layouts written both ways; the COO view and `.toarray()` of a two-string column -/
+example :
+    let A : SpIn := { rows := 4, ncols := 2, cplx := false,
+                      trip := [(3, 0, (5, 0)), (0, 0, (7, 0)), (1, 1, (0, 0)), (0, 0, (7, 0)), (2, 1, (9, 0))] }
+    let add : Nat → Nat → Nat := fun a b => a + b
+    colEntries add A 0 = [(0, (14, 0)), (3, (5, 0))] ∧ colEntries add A 1 = [(2, (9, 0))] ∧
+      (denseMat add [97] 2 A).cols = [[(14, 0), (0, 0), (0, 0), (5, 0)], [(0, 0), (0, 0), (9, 0), (0, 0)]] ∧
+      encMatWordsSp add .little .dense [97] 2 A = encMatWords .little .dense (denseMat add [97] 2 A) ∧
+      encMatWordsSp add .big .bigmat [97] 2 A = encMatWords .big .bigmat (denseMat add [97] 2 A) ∧
+      encMatWordsSp add .big .nonbigmat [97] 2 A = encMatWords .big .nonbigmat (denseMat add [97] 2 A) := by
+  decide
+
+example :
+    let col : List Entry := [(0, 0), (1, 0), (negZero, 0), (3, 0), (0, 0)]
+    storedIdx .dense false col = [1, 2, 3] ∧ storedIdx .bigmat false col = [1, 3] ∧
+      cooList .dense false 0 [col] = [(1, 0, (1, 0)), (2, 0, (negZero, 0)), (3, 0, (3, 0))] ∧
+      cooToDense (fun a b => if a = (0, 0) then pz b else b) 5 1 (cooList .dense false 0 [col])
+        = [[(0, 0), (1, 0), (0, 0), (3, 0), (0, 0)]] ∧
+      decCol .dense false col = [(0, 0), (1, 0), (negZero, 0), (3, 0), (0, 0)] := by
+  decide
+
+example :
+    let z : Mat := { name := [97], form := 2, cplx := false, rows := 3, cols := [[(0, 0), (0, 0), (0, 0)]] }
+    autoOf .nonbigmat z = false ∧ autoOf .bigmat z = true ∧ autoOf .dense z = false ∧
+      (writeFileWords .little [(.nonbigmat, z)]).toOption = encFileWords .little [(.dense, z)] := by
+  decide
 
 end PyYetiVerif.C04
